@@ -26,7 +26,7 @@ ASSUMPTIONS = ['the logging module executes concretely; only the choice of opera
                "console output goes to a null stream (set_up binds the handler to the current sys.stdout)"]
 REQUIRED_CLASSES = ['override-before-setup', 'raising-call-with-override', 'returning-call-with-override', 'disabled-then-call']
 EXPECTED_LABELS = ['no-unexpected-exception', 'console-level-matches-model', 'override-restored-inductive', 'results-independent-of-logging']
-BUDGET_S = {'quick': 120, 'thorough': 1200}
+BUDGET_S = {'quick': 120, 'thorough': 900}
 OPTS = {'quick': {'sample_every': 101, 'concolic': False}, 'thorough': {'sample_every': 1009, 'concolic': False}}
 
 LEVELS = ['CRITICAL', 'WARNING', 'INFO', 'DEBUG']
